@@ -25,11 +25,23 @@ Contiguous(view, heights) ==
 \* blank rows below the last item only when everything above it is already shown
 GapOnlyWhenAllShown(view, heights) ==
   (\E k \in 1..Len(view) : view[k] = Blank) => NonBlank(view) = Flat(heights)
+\* the focus names an item of the list exactly when the list has items (a walker left pointing past the end of its list --
+\* e.g. after removing the last item through a negative index -- shows nothing although items remain)
+FocusIsItem(focus, heights) == IF Len(heights) = 0 THEN focus = -1 ELSE focus \in 0..(Len(heights) - 1)
+\* a list box given zero rows shows nothing: the visibility clauses speak of boxes with at least one row
 FocusVisible(view, focus, heights) ==
-  (focus >= 0 /\ heights[focus + 1] > 0) => \E k \in 1..Len(view) : view[k] # Blank /\ view[k][1] = focus
+  (Len(view) > 0 /\ focus >= 0 /\ heights[focus + 1] > 0) => \E k \in 1..Len(view) : view[k] # Blank /\ view[k][1] = focus
 CursorVisible(view, focus, crow) ==
-  (focus >= 0 /\ crow >= 0) => \E k \in 1..Len(view) : view[k] = <<focus, crow>>
+  (Len(view) > 0 /\ focus >= 0 /\ crow >= 0) => \E k \in 1..Len(view) : view[k] = <<focus, crow>>
+\* get_cursor_coords (asked by the parent widget to place the terminal cursor) against the rendering of the same state:
+\* cc = <<>> not asked, <<-1, -1>> answered None, <<col, row>> otherwise
+CursorCoordsAgree(view, focus, crow, cc) ==
+  cc # <<>> =>
+    IF Len(view) > 0 /\ focus >= 0 /\ crow >= 0
+    THEN cc[2] \in 0..(Len(view) - 1) /\ view[cc[2] + 1] = <<focus, crow>>
+    ELSE cc = <<-1, -1>>
 
+\* (callers establish FocusIsItem first: the clauses below index heights by the focus)
 ViewVerdict(view, heights, focus, crow, h) ==
   IF Len(view) # h THEN "view_height"
   ELSE IF ~BlanksOnlyBelow(view) THEN "no_blank_rows_above_items"
